@@ -17,17 +17,17 @@ def run(ctx, repo):
         'results themselves across histories, and state inside libyaml structs.')
     ctx.trust('CPython ast; sa.cfg dominance; list of mutating method names (sa.astutil.MUTATORS)')
     ctx.assume('instance state of a loader/dumper dies with the object (one object per API call)')
-    E.r_global_readonly(ctx, repo)
-    E.r_no_live_escape(ctx, repo)
-    RR.r_cow(ctx, repo)
-    RR.r_sole_writer(ctx, repo)
-    RS.r_doc_reset(ctx, repo)
-    RS.r_directives_reset(ctx, repo)
-    RS.r_resolver_bracket(ctx, repo)
-    RS.r_one_object_per_call(ctx, repo)
-    RX.r_emitter_doc_reset(ctx, repo)
-    RX.r_no_process_state(ctx, repo)
-    RX.r_no_memo(ctx, repo)
+    ctx.call(E.r_global_readonly, repo)
+    ctx.call(E.r_no_live_escape, repo)
+    ctx.call(RR.r_cow, repo)
+    ctx.call(RR.r_sole_writer, repo)
+    ctx.call(RS.r_doc_reset, repo)
+    ctx.call(RS.r_directives_reset, repo)
+    ctx.call(RS.r_resolver_bracket, repo)
+    ctx.call(RS.r_one_object_per_call, repo)
+    ctx.call(RX.r_emitter_doc_reset, repo)
+    ctx.call(RX.r_no_process_state, repo)
+    ctx.call(RX.r_no_memo, repo)
 
 if __name__ == '__main__':
     sys.exit(report.main('C11', 'other', run))
